@@ -240,3 +240,29 @@ mod tests {
         }
     }
 }
+
+#[cfg(it4innovations_hyperqueue_verif)]
+impl ConciseResourceState {
+    /// Verification hook: plain copy of the state (see `crate::verif::alloc`).
+    pub fn verif_snapshot(&self) -> crate::verif::alloc::ConciseSnapshot {
+        crate::verif::alloc::ConciseSnapshot(
+            self.free
+                .iter()
+                .map(|g| {
+                    let mut fractions: Vec<(u32, u32)> =
+                        g.fractions.iter().map(|(k, f)| (k.as_num(), *f)).collect();
+                    fractions.sort_unstable();
+                    (g.units, fractions)
+                })
+                .collect(),
+        )
+    }
+}
+
+#[cfg(it4innovations_hyperqueue_verif)]
+impl ConciseFreeResources {
+    /// Verification hook: one snapshot per resource id.
+    pub fn verif_snapshot(&self) -> Vec<crate::verif::alloc::ConciseSnapshot> {
+        self.resources.iter().map(|s| s.verif_snapshot()).collect()
+    }
+}
